@@ -60,12 +60,17 @@ def run(rep, model, tier, seed, broken=()):
             rep, model, cases, 1, KINDS, "data-entries", in_domain=in_domain,
             nontrivial=lambda c, mr: mr["status"] == "ok" and any(k in KINDS for k, d, t in mr["entries"]))
         pipe.finish_projection(rep, outside, "data-entries")
+        import oracle
+        oracle.c10_oracle(rep, model, core.rng_for(seed, "C10", "oracle"), 100 if tier == "quick" else 3000)
         pipe.crosscheck(rep)
     finally:
         gen.set_ascii(False)
 
 
 def replay(obj):
+    if obj.get("oracle"):
+        import oracle
+        return oracle.replay(obj)
     model = core.Model()
     c = pipe.case_from_json(obj["case"])
     d = pipe.compare_projection(model, c, obj.get("projection_mode", 1), set(obj["kinds"]) if obj.get("kinds") else None)
